@@ -240,8 +240,23 @@ func (x *Exec) callWrites(c *ssa.CallCommon, ws *WriteSet, visiting map[*ssa.Fun
 		fn = x.P.resolveFuncValue(c.Value)
 	}
 	if fn == nil {
+		if x.harmlessFuncValue(c.Value) {
+			return
+		}
 		ws.all = true
 		ws.why = "dynamic call " + c.Value.Name()
+		return
+	}
+	if fnKey(fn) == "google.golang.org/protobuf/types/known/anypb.New" && len(c.Args) == 1 {
+		x.addEffectSpec([]string{"ghost.marshalfail"}, ws)
+		// the model snapshots the message struct into a fresh object of the same type
+		if mi, ok := c.Args[0].(*ssa.MakeInterface); ok {
+			if pt, ok := mi.X.Type().Underlying().(*types.Pointer); ok {
+				for _, k := range x.keysUnder("H", pt.Elem(), nil) {
+					ws.keys[k] = true
+				}
+			}
+		}
 		return
 	}
 	// lock operations write the lock-set component of their (statically known) mutex
@@ -780,4 +795,38 @@ func (x *Exec) expandKeys(items []string) map[string]bool {
 		}
 	}
 	return out
+}
+
+// harmlessFuncValue: cancel functions returned by context.With* (extracted from the call result).
+func (x *Exec) harmlessFuncValue(v ssa.Value) bool {
+	if u, ok := v.(*ssa.UnOp); ok {
+		// loaded from a cell that only ever holds such a value
+		if a, ok := u.X.(*ssa.Alloc); ok {
+			okAll := true
+			n := 0
+			for _, r := range *a.Referrers() {
+				if s, ok := r.(*ssa.Store); ok && s.Addr == ssa.Value(a) {
+					n++
+					if !x.harmlessFuncValue(s.Val) {
+						okAll = false
+					}
+				}
+			}
+			return okAll && n > 0
+		}
+		return false
+	}
+	ex, ok := v.(*ssa.Extract)
+	if !ok {
+		return false
+	}
+	call, ok := ex.Tuple.(*ssa.Call)
+	if !ok || call.Call.StaticCallee() == nil {
+		return false
+	}
+	switch call.Call.StaticCallee().String() {
+	case "context.WithTimeout", "context.WithCancel", "context.WithDeadline":
+		return ex.Index == 1
+	}
+	return false
 }
